@@ -307,8 +307,7 @@ def iterLoop (st : Static) (nodes : List AstNode) (max : Nat) : Nat → Nat → 
         else iterLoop st nodes max fuel it defs' (rep ++ r)
 
 /-- `resolve_iteratively`: `ok (iterations, defs, reported)` or all error messages -/
-def resolveIteratively (st : Static) (nodes : List AstNode) (defs : Defs) : Except (List String) (Nat × Defs × List String) :=
-  let max := st.opts.maxIter
+def resolveIterativelyN (st : Static) (nodes : List AstNode) (max : Nat) (defs : Defs) : Except (List String) (Nat × Defs × List String) :=
   match iterLoop st nodes max max 0 defs [] with
   | .error e => .error e
   | .ok (i, defs, rep, true) => .ok (i, defs, rep)
@@ -317,6 +316,10 @@ def resolveIteratively (st : Static) (nodes : List AstNode) (defs : Defs) : Exce
     | .error (m, r) => .error (rep ++ r ++ [m])
     | .ok (defs', stable, r) =>
       if stable then .ok (i, defs', rep ++ r) else .error (rep ++ r ++ ["did not converge"])
+
+/-- the budget of the outer loop is `--iters` (the same option also bounds the loops of `asm` blocks, see `evalAsm`) -/
+def resolveIteratively (st : Static) (nodes : List AstNode) (defs : Defs) : Except (List String) (Nat × Defs × List String) :=
+  resolveIterativelyN st nodes st.opts.maxIter defs
 
 end Casm
 
